@@ -341,6 +341,21 @@ def r4(ctx, R):
     rs = q.raises(ad, "ValueError")
     if not rs or ("io_._can_add_spec(spec)", "F") not in q.guards_of(ad, rs[0]):
         R.bad(ad, ad.node, "a clashing spec is silently ignored", stmt="raise ValueError")
+    er = ctx.func("ExcelRange._can_add_other")
+    R.inst("ExcelRange._can_add_other: two ranges are disjoint only if one ends strictly before the other begins")
+    ncmp = 0
+    for x in walk_local(er.node):
+        if isinstance(x, ast.Compare) and len(x.ops) == 1 and isinstance(x.ops[0], (ast.Lt, ast.LtE, ast.Gt, ast.GtE)) \
+                and "_cells" in norm(x) and (norm(x).count(".row") == 2 or norm(x).count(".column") == 2):
+            ncmp += 1
+            l_, r_ = norm(x.left), norm(x.comparators[0])
+            strict = isinstance(x.ops[0], (ast.Lt, ast.Gt))
+            ends_before = (("[-1]" in l_) and ("[0][0]" in r_)) if isinstance(x.ops[0], (ast.Lt, ast.LtE)) else \
+                (("[-1]" in r_) and ("[0][0]" in l_))
+            if not strict or not ends_before:
+                R.bad(er, x, "ranges that share a boundary row/column are taken to be disjoint: two live specs claim the same cells")
+    if ncmp != 4:
+        R.bad(er, er.node, "expected the four strict comparisons (rows and columns, both directions), found %d" % ncmp, stmt="overlap test")
     cas = ctx.func("BaseSharedIO._can_add_spec")
     R.inst("_can_add_spec asks every existing spec")
     rr = q.returns(cas)
